@@ -20,8 +20,20 @@
    duplicate-free for EVERY fuel; if moreover every contained object belongs
    to the universe (c < length (ocls m)) and fuel >= the number of objects
    (the model uses that number + 1), eAllContents enumerates exactly the
-   strict descendants, each once.  Acyclicity and the universe bound are
-   premises here, not derived from the operation histories.
+   strict descendants, each once.
+   For REACHABLE states (Proofs/Acyclic.v; last theorem of this file) acyclicity
+   and the universe bound are no longer premises: along every history whose
+   calls satisfy fits_history -- collection calls address a many-valued
+   feature, the written objects exist (< length (ocls m)), and no call would
+   put an object inside its own containment subtree in the state where it
+   runs (op_nocycle, the model-side twin of creates_cycle in harness/krun.py)
+   -- every state is WF, acyclic and within the universe, hence eAllContents
+   with fuel >= the number of objects is exactly the strict descendants, each
+   once.  The no-cycle precondition is the property's own quantifier
+   ("acyclic containment only"; pyecore does not check): it cannot be dropped,
+   x.kids.append(x) makes acyclic_cont false in the model
+   (C19_cycle_excluded_witness), and it is decidable (fits_b, sound by
+   fits_b_sound_init).
    PARTIAL: the interchangeability of access paths is
    decided by the correspondence (access path randomised per call); that the
    implementation's views follow EDITS of the class graph (no stale cache) is
@@ -188,3 +200,58 @@ Theorem C19_eallcontents_exactly_once_in_every_acyclic_reachable_state :
   forall fuel o, acyclic_cont (reach m ops) -> NoDup (eallcontents fuel m (reach m ops) o).
 Proof. exact reach_eallcontents_NoDup. Qed.
 Print Assumptions C19_eallcontents_exactly_once_in_every_acyclic_reachable_state.
+
+(* ---------- in every reachable state of a history that closes no containment cycle ---------- *)
+From PyecoreV Require Import Proofs.Acyclic.
+
+Theorem C19_reachable_states_are_acyclic_and_within_the_universe :
+  forall m, wf_mm m -> ref_defaults_none m -> forall ops,
+  fits_history m (init_state m) ops ->
+  acyclic_cont (reach m ops) /\ in_universe m (reach m ops).
+Proof. exact acyclic_history. Qed.
+Print Assumptions C19_reachable_states_are_acyclic_and_within_the_universe.
+
+Theorem C19_no_cycle_step :
+  forall m, wf_mm m -> forall s o,
+  WF m s -> acyclic_cont s -> op_fits m s o -> op_nocycle m s o -> acyclic_cont (next m s o).
+Proof. exact acyclic_step. Qed.
+Print Assumptions C19_no_cycle_step.
+
+Theorem C19_eallcontents_exactly_the_descendants_once_in_every_reachable_state :
+  forall m, wf_mm m -> ref_defaults_none m -> forall ops,
+  fits_history m (init_state m) ops ->
+  forall fuel o, length (ocls m) <= fuel ->
+    NoDup (eallcontents fuel m (reach m ops) o) /    (forall c, In c (eallcontents fuel m (reach m ops) o) <-> descends m (reach m ops) o c).
+Proof. exact reach_eallcontents_exact. Qed.
+Print Assumptions C19_eallcontents_exactly_the_descendants_once_in_every_reachable_state.
+
+(* the boolean form of the premise is sound *)
+Theorem C19_checked_histories_fit :
+  forall m, wf_mm m -> ref_defaults_none m -> forall ops,
+  fits_b m (init_state m) ops = true -> fits_history m (init_state m) ops.
+Proof. exact fits_b_sound_init. Qed.
+Print Assumptions C19_checked_histories_fit.
+
+(* a fitting history with a re-parenting, a move through the container end, Resource.append
+   of a contained object, an assignment, a failing remove and `del` of the container end *)
+Example C19_fits_history_witness :
+  fits_history ex_mm_tree (init_state ex_mm_tree) ex_tree_history /  (let s := reach ex_mm_tree (firstn 5 ex_tree_history) in
+   cont s 1 = Some (0, 0) /\ cont s 2 = Some (1, 0) /\ cont s 3 = Some (2, 0) /   eallcontents 5 ex_mm_tree s 0 = [1; 2; 3]) /  (let s := reach ex_mm_tree (firstn 6 ex_tree_history) in
+   cont s 2 = None /\ rcont s 0 = [2] /\ vals s (1, 0) = [] /\ eresource_of ex_mm_tree s 3 = Some 0) /  (let s := reach ex_mm_tree ex_tree_history in
+   cont s 1 = None /\ cont s 2 = Some (0, 0) /\ cont s 3 = None /\ rcont s 0 = [] /   vals s (2, 0) = [] /\ eallcontents 5 ex_mm_tree s 0 = [2]).
+Proof. exact fits_history_witness. Qed.
+Print Assumptions C19_fits_history_witness.
+
+(* the precondition is not over-strong: the excluded calls do close a cycle in the model *)
+Example C19_cycle_excluded_witness :
+  let m := ex_mm_tree in
+  let s := reach m [OAppend 0 0 (VObj 1)] in
+  (op_ok_b m s (OAppend 0 0 (VObj 0)) = false /\ ~ op_nocycle m s (OAppend 0 0 (VObj 0)) /\
+   ~ acyclic_cont (next m s (OAppend 0 0 (VObj 0)))) /\
+  (op_ok_b m s (OAppend 1 0 (VObj 0)) = false /\ ~ op_nocycle m s (OAppend 1 0 (VObj 0)) /\
+   ~ acyclic_cont (next m s (OAppend 1 0 (VObj 0)))) /\
+  (op_ok_b m s (OSet 0 1 (VObj 1)) = false /\ ~ op_nocycle m s (OSet 0 1 (VObj 1)) /\
+   ~ acyclic_cont (next m s (OSet 0 1 (VObj 1)))) /\
+  WF m (next m s (OAppend 1 0 (VObj 0))).
+Proof. exact cycle_excluded. Qed.
+Print Assumptions C19_cycle_excluded_witness.
